@@ -149,7 +149,11 @@ Proof.
 Qed.
 Lemma sort_permutation : forall l l', Permutation l l' -> sort l = sort l'.
 Proof.
-  induction 1; cbn; try congruence. apply insert_comm.
+  induction 1; cbn.
+  - reflexivity.
+  - unfold sort in IHPermutation. rewrite IHPermutation. reflexivity.
+  - apply insert_comm.
+  - congruence.
 Qed.
 Lemma sort_ext : forall l l', NoDup l -> NoDup l' -> (forall x, In x l <-> In x l') -> sort l = sort l'.
 Proof. intros l l' N1 N2 H. apply sort_permutation. apply NoDup_Permutation; assumption. Qed.
